@@ -17,6 +17,14 @@ non-default alternative recurse with the extended prefix.  Every leaf of the tre
 sequence) is executed exactly once.  `max_dev` bounds the number of non-default answers
 (deviation bound); without it the enumeration is complete.
 
+Besides the three draws jaxley makes today the oracle owns the draws a *different but legitimate*
+implementation could make, so that such an implementation is still explored and judged on its
+outcomes: rand / random / random_sample / uniform (each scalar is a choice over the quantile grid
+QUANTILES, which contains 0.0 and the largest double below 1.0), randint / integers (all values of
+a range of at most 16, otherwise both ends, their neighbours and the middle), permutation / shuffle
+(all permutations of up to 4 elements, otherwise the identity and every single transposition), and
+`default_rng(...)` generators with the same methods.  Anything else on `np.random` is refused.
+
 The interception is installed by `with oracle.installed():` and removed on exit, also when the
 function under test raises.  `Oracle.forwarding(seed)` answers every draw the way numpy's real
 generator would (used to show that the proxy sees *every* draw: same seed, same edges, and the
@@ -26,6 +34,7 @@ from __future__ import annotations
 
 import contextlib
 import importlib
+import itertools
 import sys
 from dataclasses import dataclass
 from typing import Callable, List, Optional, Sequence
@@ -39,6 +48,40 @@ class HarnessError(RuntimeError):
 
 class PrefixOutOfDomain(HarnessError):
     """A prescribed answer does not exist at the choice point it was prescribed for."""
+
+
+class BudgetExceeded(HarnessError):
+    """explore() needed more runs than max_runs allows (nothing is truncated silently)."""
+
+
+# quantile grid of a continuous draw on [0, 1): both ends of the interval are in it
+QUANTILES = (0.0, 0.25, 0.5, 0.75, 1.0 - 2.0**-53)
+MAX_FULL_RANGE = 16  # integer ranges up to this size are enumerated completely
+MAX_FULL_PERM = 4  # permutations of up to this many elements are enumerated completely
+
+
+def _shape_of(size):
+    """size argument -> (shape or None for a scalar draw, number of scalars)."""
+    if size is None:
+        return None, 1
+    shape = (int(size),) if _np.ndim(size) == 0 else tuple(int(x) for x in size)
+    return shape, int(_np.prod(shape)) if shape else 1
+
+
+def _range_offsets(n):
+    return list(range(n)) if n <= MAX_FULL_RANGE else sorted({0, 1, n // 2, n - 2, n - 1})
+
+
+def _perm_domain(n):
+    if n <= MAX_FULL_PERM:
+        return list(itertools.permutations(range(n)))  # identity first
+    out = [tuple(range(n))]
+    for i in range(n):
+        for j in range(i + 1, n):
+            q = list(range(n))
+            q[i], q[j] = q[j], q[i]
+            out.append(tuple(q))
+    return out
 
 
 @dataclass
@@ -109,7 +152,87 @@ class Oracle:
         return sum(1 for p in self.trace if p.deviates)
 
     # ------------------------------------------------------------------ RNG look-alikes
-    def binomial(self, n, p, size=None):
+    def _emit(self, fn, label, k, n, value_of, real=None, index_of=None, extra=None):
+        """k scalar choice points with n alternatives each. value_of(i) is the value of answer i; in forwarding
+        mode real[j] is handed out and index_of(real[j]) is recorded as the answer."""
+        vals, pts, ans = [], [], []
+        for j in range(k):
+            if real is not None:
+                v = real[j]
+                i = self.choose(f"{label}[{j}/{k}]", n, forced=index_of(v))
+            else:
+                i = self.choose(f"{label}[{j}/{k}]", n)
+                v = value_of(i)
+            self.trace[-1].value = v.item() if hasattr(v, "item") else v
+            vals.append(v)
+            pts.append(len(self.trace) - 1)
+            ans.append(i)
+        call = {"fn": fn, "n": n, "answers": ans, "points": pts}
+        call.update(extra or {})
+        self.calls.append(call)
+        return vals
+
+    def random_sample(self, size=None, _src=None):
+        """Uniform draws on [0, 1): every scalar is a choice over QUANTILES."""
+        shape, k = _shape_of(size)
+        src = _src if _src is not None else (self._rs.random_sample if self._rs is not None else None)
+        real = None if src is None else _np.asarray(src(size), dtype=float).reshape(-1)
+        nq = len(QUANTILES)
+        vals = self._emit("random_sample", "uniform01", k, nq, lambda i: QUANTILES[i], real, lambda u: min(int(u * nq), nq - 1))
+        arr = _np.asarray(vals, dtype=float)
+        return float(arr[0]) if shape is None else arr.reshape(shape)
+
+    def rand(self, *dims, _src=None):
+        return self.random_sample(tuple(dims) if dims else None, _src=_src)
+
+    def uniform(self, low=0.0, high=1.0, size=None, _src=None):
+        if _np.ndim(low) or _np.ndim(high):
+            raise HarnessError("uniform with array bounds is not modelled")
+        # numpy computes low + (high - low) * next_double, i.e. the same stream as random_sample
+        return low + (high - low) * self.random_sample(size, _src=_src)
+
+    def randint(self, low, high=None, size=None, dtype=int, _src=None):
+        if _np.ndim(low) or _np.ndim(high):
+            raise HarnessError("randint with array bounds is not modelled")
+        lo, hi = (0, int(low)) if high is None else (int(low), int(high))
+        if hi <= lo:
+            raise ValueError("low >= high")
+        offs = _range_offsets(hi - lo)
+        shape, k = _shape_of(size)
+        src = _src if _src is not None else (self._rs.randint if self._rs is not None else None)
+        real = None if src is None else _np.asarray(src(low, high, size, dtype)).reshape(-1)
+
+        def index_of(v):
+            return min(range(len(offs)), key=lambda i: abs(offs[i] - (int(v) - lo)))
+
+        vals = self._emit("randint", f"randint({lo},{hi})", k, len(offs), lambda i: lo + offs[i], real, index_of, {"lo": lo, "hi": hi})
+        if shape is None:
+            return int(vals[0]) if dtype is int else _np.dtype(dtype).type(vals[0])
+        return _np.asarray([int(v) for v in vals], dtype=dtype).reshape(shape)
+
+    def _perm(self, fn, n, _src=None):
+        dom = _perm_domain(n)
+        src = _src if _src is not None else (self._rs.permutation if self._rs is not None else None)
+        real = None if src is None else [tuple(int(i) for i in src(n))]  # the swaps only depend on n
+        vals = self._emit(fn, f"{fn}({n})", 1, len(dom), lambda i: dom[i], real, lambda q: dom.index(q) if q in dom else 0)
+        self.trace[-1].value = list(vals[0])
+        return list(vals[0])
+
+    def permutation(self, x, _src=None):
+        if _np.ndim(x) == 0:
+            return _np.asarray(self._perm("permutation", int(x), _src), dtype=_np.int64)
+        arr = _np.asarray(x)
+        return arr[_np.asarray(self._perm("permutation", len(arr), _src), dtype=_np.intp)]
+
+    def shuffle(self, x, _src=None):
+        q = self._perm("shuffle", len(x), _src)
+        if isinstance(x, _np.ndarray):
+            x[...] = x[_np.asarray(q, dtype=_np.intp)]
+        else:
+            x[:] = [x[i] for i in q]
+
+    def binomial(self, n, p, size=None, _rs=None):
+        _rs = _rs if _rs is not None else self._rs
         if size is not None:
             raise HarnessError("binomial(size=...) is not modelled")
         n = int(n)
@@ -125,14 +248,15 @@ class Oracle:
         else:
             dom = list(range(n + 1))
         forced = None
-        if self._rs is not None:
-            forced = dom.index(int(self._rs.binomial(n, p)))
+        if _rs is not None:
+            forced = dom.index(int(_rs.binomial(n, p)))
         i = self.choose(f"binomial({n},{p:g})", len(dom), forced)
         self.trace[-1].value = dom[i]
         self.calls.append({"fn": "binomial", "n": n, "p": p, "value": dom[i], "points": [len(self.trace) - 1]})
         return int(dom[i])
 
-    def choice(self, a, size=None, replace=True, p=None):
+    def choice(self, a, size=None, replace=True, p=None, _rs=None):
+        _rs = _rs if _rs is not None else self._rs
         if p is not None:
             raise HarnessError("choice(p=...) is not modelled")
         arr = _np.arange(a) if _np.ndim(a) == 0 else _np.asarray(a)
@@ -151,9 +275,9 @@ class Oracle:
         if not replace and k > len(arr):
             raise ValueError("Cannot take a larger sample than population when 'replace=False'")
         forced_idx = None
-        if self._rs is not None:
+        if _rs is not None:
             # the real generator draws positions; drawing from arange(len) consumes the same stream
-            forced_idx = _np.atleast_1d(self._rs.choice(len(arr), size=None if scalar else shape, replace=replace)).ravel()
+            forced_idx = _np.atleast_1d(_rs.choice(len(arr), size=None if scalar else shape, replace=replace)).ravel()
         idx, pts = [], []
         remaining = list(range(len(arr)))
         for j in range(k):
@@ -173,7 +297,7 @@ class Oracle:
         )
         out = arr[_np.asarray(idx, dtype=_np.intp)]
         if scalar:
-            return out[0]
+            return int(out[0]) if _np.ndim(a) == 0 else out[0]  # numpy returns a python int for choice(n)
         return out.reshape(shape)
 
     def pandas_sample(self, obj_len, size, replace, weights, random_state):
@@ -240,9 +364,12 @@ def installed_anywhere() -> bool:
     return (jc is not None and isinstance(getattr(jc, "np", None), _NumpyProxy)) or getattr(pcs.sample, "_vf_oracle", False)
 
 
+_OWNED = ("binomial", "choice", "random_sample", "random", "rand", "uniform", "randint", "permutation", "shuffle")
+
+
 class _RandomProxy:
-    """Stands in for `numpy.random`: only the draws jaxley.connect is known to make are answered;
-    anything else is unowned nondeterminism and stops the run."""
+    """Stands in for `numpy.random`: the draws listed in _OWNED (and default_rng generators) are answered by
+    the oracle; anything else is nondeterminism the oracle does not own and stops the run."""
 
     def __init__(self, oracle: Oracle):
         self._oracle = oracle
@@ -253,8 +380,75 @@ class _RandomProxy:
     def choice(self, *a, **k):
         return self._oracle.choice(*a, **k)
 
+    def random_sample(self, size=None):
+        return self._oracle.random_sample(size)
+
+    random = random_sample
+    ranf = random_sample
+    sample = random_sample
+
+    def rand(self, *dims):
+        return self._oracle.rand(*dims)
+
+    def uniform(self, low=0.0, high=1.0, size=None):
+        return self._oracle.uniform(low, high, size)
+
+    def randint(self, low, high=None, size=None, dtype=int):
+        return self._oracle.randint(low, high, size, dtype)
+
+    def permutation(self, x):
+        return self._oracle.permutation(x)
+
+    def shuffle(self, x):
+        return self._oracle.shuffle(x)
+
+    def default_rng(self, seed=None):
+        return _GeneratorProxy(self._oracle, seed)
+
     def __getattr__(self, name):
         raise HarnessError(f"jaxley.connect used np.random.{name}, which the choice oracle does not own")
+
+
+class _GeneratorProxy:
+    """Stands in for a `numpy.random.Generator` made by default_rng: same choice points as the module functions.
+    In forwarding mode the draws come from a real generator with the same seed (an unseeded one cannot be forwarded)."""
+
+    def __init__(self, oracle: Oracle, seed):
+        self._oracle = oracle
+        self._real = None
+        if oracle._rs is not None:
+            if seed is None:
+                raise HarnessError("an unseeded default_rng() cannot be forwarded (no reproducible real stream)")
+            self._real = _np.random.default_rng(seed)
+
+    def random(self, size=None):
+        return self._oracle.random_sample(size, _src=None if self._real is None else self._real.random)
+
+    def uniform(self, low=0.0, high=1.0, size=None):
+        return self._oracle.uniform(low, high, size, _src=None if self._real is None else self._real.random)
+
+    def integers(self, low, high=None, size=None, dtype=_np.int64, endpoint=False):
+        if endpoint:
+            low, high = (0, low + 1) if high is None else (low, high + 1)
+        src = None if self._real is None else (lambda lo, hi, sz, dt: self._real.integers(lo, hi, sz, dtype=dt))
+        return self._oracle.randint(low, high, size, dtype, _src=src)
+
+    def choice(self, a, size=None, replace=True, p=None, axis=0, shuffle=True):
+        if axis != 0:
+            raise HarnessError("Generator.choice(axis=...) is not modelled")
+        return self._oracle.choice(a, size, replace, p, _rs=self._real)
+
+    def binomial(self, n, p, size=None):
+        return self._oracle.binomial(n, p, size, _rs=self._real)
+
+    def permutation(self, x, axis=0):
+        return self._oracle.permutation(x, _src=None if self._real is None else self._real.permutation)
+
+    def shuffle(self, x, axis=0):
+        return self._oracle.shuffle(x, _src=None if self._real is None else self._real.permutation)
+
+    def __getattr__(self, name):
+        raise HarnessError(f"jaxley.connect used Generator.{name}, which the choice oracle does not own")
 
 
 class _NumpyProxy:
@@ -296,7 +490,7 @@ def explore(
              (the caller enumerates them itself, e.g. the binomial answer of sparse_connect);
     max_dev  deviation bound: at most that many non-default answers beyond `frozen`
              (None = complete enumeration of the subtree);
-    max_runs safety cap; exceeding it raises (never truncates silently).
+    max_runs budget; needing more runs raises BudgetExceeded (never truncates silently).
 
     Yields Run objects, one per leaf, each leaf exactly once.
     """
@@ -306,10 +500,10 @@ def explore(
     nruns = 0
     while stack:
         prefix, expect = stack.pop()
+        if max_runs is not None and nruns >= max_runs:
+            raise BudgetExceeded(f"exploration needs more than max_runs={max_runs} runs")
         trace, result = run(list(prefix))
         nruns += 1
-        if max_runs is not None and nruns > max_runs:
-            raise HarnessError(f"exploration exceeded max_runs={max_runs}")
         got = [p.answer for p in trace[: len(prefix)]]
         if got != prefix[: len(trace)]:
             raise HarnessError(f"replay diverged: prefix {prefix} but answers {got}")
@@ -333,3 +527,63 @@ def explore(
             for alt in range(trace[i].n - 1, -1, -1):
                 if alt != trace[i].answer:
                     stack.append((base + [alt], (trace[i].label, trace[i].n)))
+
+
+# ---------------------------------------------------------------------------------- self test
+def _draw_script(R, use_generator):
+    """One call of every owned draw, written against the numpy.random interface."""
+    out = []
+    if use_generator:
+        g = R.default_rng(7)
+        out += [g.random(), g.random(3), g.uniform(-2.0, 3.0, 2), g.integers(5), g.integers(2, 40, size=3),
+                g.integers(1, 3, endpoint=True), g.choice([4, 5, 6], size=2), g.binomial(6, 0.5), g.permutation(3),
+                g.permutation(_np.array([9, 8, 7, 6, 5, 4])), g.choice(5)]
+        x = _np.arange(5)
+        g.shuffle(x)
+        out.append(x)
+        return out
+    out += [R.binomial(6, 0.5), R.choice([3, 1, 2], size=2), R.choice(4), R.choice(_np.array([7, 8]), 1, replace=True),
+            R.rand(), R.rand(2), R.rand(2, 2), R.random(), R.random(3), R.random_sample((1, 2)), R.uniform(), R.uniform(1.5, 4.0),
+            R.uniform(-1.0, 1.0, 3), R.randint(4), R.randint(2, 9), R.randint(0, 100, size=4), R.randint(3, size=(2, 2)),
+            R.permutation(4), R.permutation(7), R.permutation(_np.array([5, 6, 7])), R.choice([1, 2, 3, 4], size=3, replace=False)]
+    x = [10, 20, 30]
+    R.shuffle(x)
+    y = _np.arange(6)
+    R.shuffle(y)
+    out += [x, y]
+    return out
+
+
+def selftest_forwarding(seeds=(0, 1, 2)) -> int:
+    """Every owned draw, forwarded, must return what numpy returns and consume numpy's stream identically.
+    Also: without forwarding every value the oracle hands out lies in the support of the real draw.
+    Returns the number of draws compared; raises HarnessError on any difference."""
+    n = 0
+    for seed in seeds:
+        keep = _np.random.get_state()
+        try:
+            _np.random.seed(seed)
+            want = _draw_script(_np.random, False)
+            end = _np.random.get_state()
+        finally:
+            _np.random.set_state(keep)
+        o = Oracle.forwarding(seed)
+        got = _draw_script(_RandomProxy(o), False)
+        st = o._rs.get_state()
+        if not (end[0] == st[0] and end[2:] == st[2:] and _np.array_equal(end[1], st[1])):
+            raise HarnessError("forwarded draws do not consume the global stream like numpy does")
+        want_g = _draw_script(_np.random, True)
+        got_g = _draw_script(_RandomProxy(Oracle.forwarding(seed)), True)
+        for a, b in zip(want + want_g, got + got_g):
+            if type(a) is not type(b) or _np.shape(a) != _np.shape(b) or not _np.array_equal(a, b) or (
+                isinstance(a, _np.ndarray) and a.dtype != b.dtype
+            ):
+                raise HarnessError(f"forwarded draw differs from numpy: {a!r} vs {b!r}")
+            n += 1
+    for policy in ("first", "last", "cycle"):
+        for vals in (_draw_script(_RandomProxy(Oracle((), policy)), False), _draw_script(_RandomProxy(Oracle((), policy)), True)):
+            for v in vals:
+                if isinstance(v, float) or (isinstance(v, _np.ndarray) and v.dtype.kind == "f"):
+                    if not _np.all((_np.asarray(v) >= -2.0) & (_np.asarray(v) < 4.0)):
+                        raise HarnessError(f"continuous answer outside the support: {v!r}")
+    return n
